@@ -49,6 +49,11 @@ BASE = [
     (C('h', C('box', Z)), None), (C('h', L(Z, tail=W)), None),
     (C('d', A('a')), None), (C('d', A('a')), None), (C('d', A('b')), None), (C('d', X), gc('q', X)),
     (C('pr', X, Y, C('k', Y, X)), None),
+    # a first answer that binds nothing followed by one that binds; facts whose every argument is `$_`
+    (C('u', ('anon',)), None), (C('u', I(5)), None), (C('any', ('anon',)), None), (C('any2', ('anon',), ('anon',)), None),
+    # predicates defined by rules only: their first answer already comes out of a live rule body
+    (C('via1', X), gc('q', X)), (C('via2', X), OR(gc('p', X), gc('q', X))), (C('via3', X), gc('member', X, L(A('a'), A('b'), A('c')))),
+    (C('via4', X), AND(gc('r', X, Y), gc('q', Y))),
 ]
 
 
@@ -56,7 +61,7 @@ def inst(m, t, syms):
     """replace ('symint', name) by a (shared) symbolic i64"""
     if not isinstance(t, tuple): return t
     if t and t[0] == 'symint':
-        if t[1] not in syms: syms[t[1]] = m.fresh('data.' + t[1], 'i64')
+        if t[1] not in syms: syms[t[1]] = m.fresh('data.' + t[1], 'i64')     # (a caller may have put concrete values there)
         return ('int', syms[t[1]])
     return tuple(inst(m, x, syms) for x in t)
 
@@ -175,6 +180,18 @@ def ref_search(m, clauses, query, max_answers=10, mode='suiron', budget=4000):
     return answers, segs, exhausted, it
 
 
+import re
+
+
+def out_matches(got, want):
+    """engine output against reference output; the reference writes `$?` where an unbound variable is printed.  C04 quantifies over
+    ground or bound arguments, so what is written for an unbound one is outside the claim (print writes name_id, print_list nothing):
+    any text without a line break is accepted at that place, and the rest of the output is still compared"""
+    if '$?' not in want: return got == want
+    pat = r'[^\n]*?'.join(re.escape(x) for x in want.split('$?'))
+    return re.fullmatch(pat, got, re.S) is not None
+
+
 def compare_runs(m, run, ref, desc, what='answers', check_output=True):
     """engine run vs reference (answers, segs, exhausted).  Returns None or (key, detail)."""
     answers, segs, exhausted, it = ref
@@ -192,7 +209,7 @@ def compare_runs(m, run, ref, desc, what='answers', check_output=True):
             len(answers), '' if exhausted else '+', ' | '.join(R.show(x) for x in answers[:6])))
     if check_output:
         for i, (a, b) in enumerate(zip(run.outs, segs)):
-            if a != b:
+            if not out_matches(a, b):
                 return ('wrong-output', '%s: output before %s is %r, the reference search writes %r' % (
                     desc, 'answer %d' % (i + 1) if i < len(run.answers) else 'the end of the search', a, b))
     return None
